@@ -997,6 +997,9 @@ func checkC10(c *Ctx) {
 	c.Floor("UNCOND-PREP", 4)
 	c.sendKey("SEND-KEY", c.Func("support", "", "FBP"), "Felsenstein support equals the fraction of bootstrap trees containing the split")
 	c.Floor("SEND-KEY", 1)
+	c.Decides("MEMO-STORED: the transfer-distance recursion stores the light-side count of a bootstrap branch (`ones[...]`) before anything in that block can return: its caller reads the entry right after the call")
+	c.memoStored("MEMO-STORED", c.Func("support", "", "minTransferDistRecur"), "transfer support equals 1 - (average minimum transfer distance)/(p-1)")
+	c.Floor("MEMO-STORED", 1)
 	for _, n := range []string{"FBP", "TBE"} {
 		if fi := c.Func("support", "", n); fi != nil {
 			c.freshPerItem("FRESH", fi, map[string]bool{"PutEdgeValue": true, "AddEdgeCount": true}, "NewEdgeIndex", "support equals the fraction of bootstrap trees containing the same split")
